@@ -64,7 +64,7 @@ MUTANTS = [
     Mutant('mod-quotient-to-the-twos-digit', GMP, "            q = math.floor(_mpfr_eval(gmp.div, x, y, n=-1))", "            q = math.floor(_mpfr_eval(gmp.div, x, y, n=0))", 'C02.G1'),
     Mutant('mod-quotient-finer', GMP, "            q = math.floor(_mpfr_eval(gmp.div, x, y, n=-1))", "            q = math.floor(_mpfr_eval(gmp.div, x, y, n=-4))", 'C02.G1',
            'more fraction digits than needed: same floor', expect='silent'),
-    Mutant('mod-remainder-operands-swapped', GMP, "            return x - q * y", "            return y - q * x", 'C02.G1'),
+    Mutant('mod-remainder-operands-swapped', GMP, "            r = x - q * y", "            r = y - q * x", 'C02.G1'),
     Mutant('mod-zero-takes-sign-of-x', GMP, "            # if x is zero, +/-0 is returned\n            return Float(x=x, s=y.s)", "            # if x is zero, +/-0 is returned\n            return Float(x=x, s=x.s)", 'C02.G1'),
     Mutant('fdim-subtracts-the-other-way', GMP, "            return _mpfr_eval(gmp.sub, x, y, prec=prec, n=n)\n        else:\n            # otherwise, returns +0", "            return _mpfr_eval(gmp.sub, y, x, prec=prec, n=n)\n        else:\n            # otherwise, returns +0", 'C02.G1'),
     Mutant('sub-operands-swapped', OPS, 'r = engine.sub(xr, yr, ctx)', 'r = engine.sub(yr, xr, ctx)', 'C02.S1'),
